@@ -177,6 +177,9 @@ fn finish_current<S, T>(st: &mut BatchState<S, T>, slot: &Arc<Mutex<Option<T>>>,
         let world = verif::uninstall().expect("world vanished");
         let trace = std::mem::take(&mut *trace.lock().unwrap());
         let value = slot.lock().unwrap().take();
+        if std::env::var("VERIF_DEBUG").is_ok() && outcome == Outcome::Done && value.is_none() {
+            eprintln!("[simrun] job {idx}: Done without value; queue left {}; trace len {}", st.queue.len(), trace.choices.len());
+        }
         st.results[idx] = Some(SimResult { outcome, value, world, trace });
     }
 }
